@@ -106,6 +106,29 @@ func C11(c *core.Ctx) {
 		}
 	}
 	c.Set("exhaustive_window_range", fmt.Sprintf("days %d..%d (2019-12-20 + %d), all 6 intervals", base, base+span, span))
+	// (B) calendar boundaries: windows whose start and end are the first, 15th, last-but-one and last day of
+	// every month of a year (leap and non-leap years), for the calendar-aligned intervals
+	years := []int{2020, 2023, 2100, 1999, 2024}
+	nyears := c.Pick(1, len(years))
+	for yk := 0; yk < nyears; yk++ {
+		y := years[(yk+int(c.Seed))%len(years)]
+		var special []int
+		for m := 1; m <= 12; m++ {
+			first := timeToDay(time.Date(y, time.Month(m), 1, 0, 0, 0, 0, time.UTC))
+			last := timeToDay(time.Date(y, time.Month(m)+1, 0, 0, 0, 0, 0, time.UTC))
+			special = append(special, first, first+14, last-1, last)
+		}
+		for _, s := range special {
+			for _, e := range special {
+				if e < s-1 {
+					continue
+				}
+				for _, iv := range []int{2, 3, 4, 5} {
+					add(s, e, iv, lasts[(s+e+iv)%len(lasts)])
+				}
+			}
+		}
+	}
 	// (V) random windows 1900..2100 incl. century rules, start > end
 	lo, hi := -25567, 47846
 	for k := 0; k < c.Pick(6000, 120000); k++ {
